@@ -157,12 +157,12 @@ func runKV(f *vevid.Flags, rep *vevid.Report, descs []caseDesc, dirName string, 
 
 	store, err := kv.GetStoreManager().CreateStore(dir, kv.DefaultStoreOption())
 	if err != nil {
-		vevid.Fatal("create kv store: %v", err)
+		vevid.OpFailed("create kv store: %v", err)
 	}
 	defer func() { _ = kv.GetStoreManager().CloseStore(dir) }()
 	family, err := store.CreateFamily("dict", kv.FamilyOption{Merger: string(v1.IndexKVMerger)})
 	if err != nil {
-		vevid.Fatal("create kv family: %v", err)
+		vevid.OpFailed("create kv family: %v", err)
 	}
 
 	t0 := time.Now()
@@ -178,7 +178,7 @@ func runKV(f *vevid.Flags, rep *vevid.Report, descs []caseDesc, dirName string, 
 		defer kvFlusher.Release()
 		fl, err := v1.NewIndexKVFlusher(math.MaxInt16, kvFlusher)
 		if err != nil {
-			vevid.Fatal("NewIndexKVFlusher: %v", err)
+			vevid.OpFailed("NewIndexKVFlusher: %v", err)
 		}
 		for i, c := range cases {
 			pm := pick(c)
@@ -205,7 +205,7 @@ func runKV(f *vevid.Flags, rep *vevid.Report, descs []caseDesc, dirName string, 
 			}()
 		}
 		if err := fl.Close(); err != nil {
-			vevid.Fatal("IndexKVFlusher.Close: %v", err)
+			vevid.OpFailed("IndexKVFlusher.Close: %v", err)
 		}
 	}
 	l0 := func() int {
